@@ -111,6 +111,7 @@ def init_rt_virtual():
 
     tsq.TaskQueue = MonTaskQueue
 
+    _check_mirror(clk)
     m.RtMain._main_lock = vt.RLock()
     m.RtMain._def_build_lock = vt.Lock()
     sc3.init('rt', verbosity='CRITICAL', blocking=True)
@@ -122,6 +123,29 @@ def init_rt_virtual():
     _stop_clocks()
     vt.SCHED.teardown()
     _initialised = True
+
+
+def _check_mirror(clk):
+    """_start_clocks() below mirrors the library's clock init functions.  If
+    the library starts to initialise other attributes there, the mirror is out
+    of date: fail loudly (harness error) instead of exploring a half
+    initialised clock."""
+    import inspect
+    import re
+    want = {
+        clk.MetaSystemClock: {'_task_queue', '_sched_cond', '_thread',
+                              '_pure_nrt', '_elapsed_osc_offset'},
+        clk.MetaAppClock: {'_sched_lock', '_tick_cond', '_scheduler',
+                           '_thread', '_pure_nrt'},
+    }
+    for meta, names in want.items():
+        src = inspect.getsource(meta.__init__)
+        got = set(re.findall(r'cls\.(\w+)\s*=[^=]', src))
+        if got != names:
+            raise RuntimeError(
+                f'mc/seams.py mirror of {meta.__name__}.init_func is out of '
+                f'date: library assigns {sorted(got)}, mirror knows '
+                f'{sorted(names)}')
 
 
 lockfree = []          # (operation, thread) queue accesses without main lock
